@@ -79,15 +79,58 @@ theorem clampAccel_pos (a : Int) : 1 ≤ clampAccel a := by
     · omega
     · omega
 
+/-- the end-of-block restrictions, from the positional facts of `FastR.runR_spec` -/
+theorem endConditions_of_PV (seg : Array UInt8) (l : List PSeq) (a a' : Nat) (hpv : PV seg a l a') (ha' : a' ≤ seg.size)
+    (h4 : ∀ s ∈ l, 4 ≤ s.ml ∧ 1 ≤ s.off ∧ s.off ≤ 65535 ∧ s.lit + s.ll + 12 ≤ seg.size) (h5 : l ≠ [] → a' + 5 ≤ seg.size) :
+    endConditions (l.map (toSeq seg)) (seg.toList.drop a') = true := by
+  unfold endConditions
+  cases hgl : (l.map (toSeq seg)).getLast? with
+  | none => rfl
+  | some s =>
+    dsimp only
+    rw [List.getLast?_map] at hgl
+    cases hgl2 : l.getLast? with
+    | none => rw [hgl2] at hgl; cases hgl
+    | some x =>
+      rw [hgl2] at hgl
+      simp only [Option.map_some, Option.some.injEq] at hgl
+      subst hgl
+      have hne : l ≠ [] := by intro h0; subst h0; simp at hgl2
+      have hxm : x ∈ l := List.mem_of_getLast? hgl2
+      have hend := PV_last seg l a a' x hpv hgl2
+      obtain ⟨_, _, _, q4⟩ := h4 x hxm
+      have h5' := h5 hne
+      have hml : (toSeq seg x).ml = x.ml := rfl
+      rw [hml, List.length_drop, Array.length_toList]
+      simp only [Bool.and_eq_true, decide_eq_true_eq]
+      omega
+
 /-- `blk` is the serialisation of a parse of `data` whose matches were byte-verified against `d ++ data` and reach at most 65535 bytes back -/
 def Parsed (d blk data : List UInt8) : Prop :=
-  ∃ seqs last, blk = serialize seqs last ∧ (∀ s ∈ seqs, 4 ≤ s.ml ∧ s.off < 65536) ∧ ValidParse d seqs last (d ++ data)
+  ∃ seqs last, blk = serialize seqs last ∧ (∀ s ∈ seqs, 4 ≤ s.ml ∧ s.off < 65536) ∧ ValidParse d seqs last (d ++ data) ∧
+    (∀ s ∈ seqs, 1 ≤ s.off) ∧ endConditions seqs last = true ∧ covered seqs last = data.length
 
-theorem Parsed.lit (d l : List UInt8) : Parsed d (serialize [] l) l := ⟨[], l, rfl, fun s hs => (List.not_mem_nil hs).elim, rfl⟩
+theorem Parsed.lit (d l : List UInt8) : Parsed d (serialize [] l) l :=
+  ⟨[], l, rfl, fun s hs => (List.not_mem_nil hs).elim, rfl, fun s hs => (List.not_mem_nil hs).elim, rfl, by simp [covered]⟩
 
 theorem Parsed.decode {d blk data : List UInt8} (h : Parsed d blk data) : decode d blk = some data := by
-  obtain ⟨seqs, last, rfl, hwf, hv⟩ := h
+  obtain ⟨seqs, last, rfl, hwf, hv, _⟩ := h
   exact roundtrip d seqs last data hwf hv
+
+/-- format conformance of the block (doc/lz4_Block_format.md): offsets in 1..65535, match lengths ≥ 4, the end-of-block restrictions, and the
+    sequences spell out exactly `data.length` bytes -/
+theorem Parsed.conforms {d blk data : List UInt8} (h : Parsed d blk data) :
+    ∃ seqs last, blk = serialize seqs last ∧ (∀ s ∈ seqs, 4 ≤ s.ml ∧ 1 ≤ s.off ∧ s.off ≤ 65535) ∧ endConditions seqs last = true ∧
+      covered seqs last = data.length := by
+  obtain ⟨seqs, last, e, hwf, _, h1, h2, h3⟩ := h
+  exact ⟨seqs, last, e, fun s hs => ⟨(hwf s hs).1, h1 s hs, by have := (hwf s hs).2; omega⟩, h2, h3⟩
+
+/-- the block is never longer than `n + n/255 + 2` (below `LZ4_compressBound n`) -/
+theorem Parsed.size_le {d blk data : List UInt8} (h : Parsed d blk data) : blk.length ≤ data.length + data.length / 255 + 2 := by
+  obtain ⟨seqs, last, rfl, hwf, _, _, _, h3⟩ := h
+  have := serialize_length_le seqs last (fun s hs => (hwf s hs).1)
+  rw [h3] at this
+  exact this
 
 theorem getElem?_pre (pre X : List UInt8) (j : Nat) : (pre ++ X)[pre.length + j]? = X[j]? := by
   rw [List.getElem?_append_right (Nat.le_add_right _ _)]; congr 1; omega
@@ -125,8 +168,8 @@ theorem ValidParse_drop (pre : List UInt8) : ∀ (seqs : List Seq) (out last inp
 
 /-- a decoder that kept only the last `≥ 65535` bytes of the history decodes the block all the same -/
 theorem Parsed.window {pre w blk data : List UInt8} (h : Parsed (pre ++ w) blk data) (hw : 65535 ≤ w.length) : Parsed w blk data := by
-  obtain ⟨seqs, last, e, hwf, hv⟩ := h
-  refine ⟨seqs, last, e, hwf, ?_⟩
+  obtain ⟨seqs, last, e, hwf, hv, hx⟩ := h
+  refine ⟨seqs, last, e, hwf, ?_, hx⟩
   rw [List.append_assoc] at hv
   exact ValidParse_drop pre seqs w last _ hv (fun s hs => by have := (hwf s hs).2; omega)
 
@@ -157,8 +200,8 @@ theorem ValidParse_more (pre : List UInt8) : ∀ (seqs : List Seq) (out last inp
       exact ih _ _ _ h5
 
 theorem Parsed.more {d blk data : List UInt8} (pre : List UInt8) (h : Parsed d blk data) : Parsed (pre ++ d) blk data := by
-  obtain ⟨seqs, last, e, hwf, hv⟩ := h
-  refine ⟨seqs, last, e, hwf, ?_⟩
+  obtain ⟨seqs, last, e, hwf, hv, hx⟩ := h
+  refine ⟨seqs, last, e, hwf, ?_, hx⟩
   rw [List.append_assoc]
   exact ValidParse_more pre seqs d last _ hv
 
@@ -280,7 +323,7 @@ theorem call_spec (hashOf : Array UInt8 → Bool → Nat → Nat) (S0 : SState) 
         exact this
       simp only [Option.some.injEq] at h'
       subst h'
-      obtain ⟨l', q1, q2, q3, q4, _⟩ := rl l stf rfl
+      obtain ⟨l', q1, q2, q3, q4, q5⟩ := rl l stf rfl
       simp only [List.reverse_nil, List.nil_append] at q1
       subst q1
       have hlast : ((D ++ data).extract stf.anchor (D ++ data).size).toList = (D ++ data).toList.drop stf.anchor := by
@@ -293,10 +336,16 @@ theorem call_spec (hashOf : Array UInt8 → Bool → Nat → Nat) (S0 : SState) 
         rw [Array.toList_append, List.take_append_of_le_length (by rw [Array.length_toList]; omega), List.take_of_length_le (by rw [Array.length_toList]; omega)]
       rw [htake] at hv
       rw [hlast, hdict]
-      refine ⟨_, _, rfl, (fun s hs => ?_), (by rw [← Array.toList_append]; exact hv)⟩
-      obtain ⟨x, hx, rfl⟩ := List.mem_map.mp hs
-      obtain ⟨a1, _, a3, _⟩ := q4 x hx
-      exact ⟨a1, by show x.off < 65536; omega⟩
+      refine ⟨_, _, rfl, (fun s hs => ?_), (by rw [← Array.toList_append]; exact hv), (fun s hs => ?_), ?_, ?_⟩
+      · obtain ⟨x, hx, rfl⟩ := List.mem_map.mp hs
+        obtain ⟨a1, _, a3, _⟩ := q4 x hx
+        exact ⟨a1, by show x.off < 65536; omega⟩
+      · obtain ⟨x, hx, rfl⟩ := List.mem_map.mp hs
+        exact (q4 x hx).2.1
+      · exact endConditions_of_PV (D ++ data) l S.dictSize stf.anchor q2 q3 q4 (by assumption)
+      · have := PV_covered (D ++ data) l S.dictSize stf.anchor q2 q3
+        rw [Array.length_toList]
+        omega
 
 /-- the data of the first `k` calls, concatenated -/
 def prior (calls : List (Array UInt8 × Int × Nat)) (k : Nat) : List UInt8 := ((calls.take k).map (fun c => c.1.toList)).flatten
